@@ -324,3 +324,10 @@ Theorem C04_cached_array_not_refreshed_diverges :
   view_session (fst (fst (write_inplace s0 "DataArray_t" "A1" 7))) "DataArray_t" = [("A1", 7)].
 Proof. exact stale_cache_diverges. Qed.
 Print Assumptions C04_cached_array_not_refreshed_diverges.
+
+(* 11. The node copy behind compress-on-close sizes its buffer with cgio_compute_data_size: for every data type the database
+       stores the CURRENT function returns the element size of that type (a type for which it returned 0 would be copied
+       without its data).  The histories carry arrays of every type through the rewrite and verify every byte. *)
+Theorem C04_copy_data_sizes_consistent : data_sizes_ok data_size_rows = true.
+Proof. vm_compute. reflexivity. Qed.
+Print Assumptions C04_copy_data_sizes_consistent.
